@@ -301,6 +301,11 @@ class CaseRun:
         muts = [x[4:] for x in w[2:] if x.startswith("mut=")]
         if op == "mtu":
             C.Packet.setMTU(int(w[1]))
+        elif op == "sizes":
+            cur = C.Packet.MTU
+            C.Packet.setMTU(int(w[1]))
+            out.append("sizes maxSize=%d maxPayload=%d maxFragment=%d" % (C.Packet.MAX_SIZE, C.Packet.MAX_PAYLOAD_SIZE, C.Packet.MAX_FRAGMENT_SIZE))
+            C.Packet.setMTU(cur)
         elif op == "now":
             real.now = int(w[1])        # clock value before the first timed operation of the case
         elif op == "new":
@@ -722,6 +727,109 @@ def gen_two_party(real, rng, cid, mtu=1500, steps=50, loss=0.15, dup=0.1, delay=
     return lines
 
 
+def sizes_case(cid="sizes", lo=100, hi=1600):
+    """the size constants Packet.setMTU derives, for every MTU (model: Wire.Sizes)"""
+    return ["case %s" % cid] + ["sizes %d" % m for m in range(lo, hi + 1)] + ["end"]
+
+
+def late_case(cid, late, held=3, si=16, start=None, mtu=1500):
+    """a emits on every tick over a perfect link except that emission `held` is held back and arrives when the receiver's newest is
+    exactly `late` datagrams ahead of it; afterwards b reports its window in a header"""
+    lines = ["case %s" % cid, "mtu %d" % mtu, "new a client", "new b server"]
+    for e in "ab":
+        lines.append("set %s key=%s status=2 si=%d ka=%d ot=8192" % (e, KEY.hex(), si, si - 1))
+        if start:
+            lines.append("set %s ss=%d sm=%d sf=%d bp=%d bm=%d" % (e, start["ss"], start["sm"], 1, max(1, start["ss"]), max(1, start["sm"])))
+    t = BASE_T
+    lines.append("now %d" % t)
+    kb = 0
+    for i in range(held + late + 6):
+        t += si
+        if i % 2 == 0:
+            lines.append("send a len=%d seed=%d retry=0 cb=-" % (10 + i % 7, 1000 + i))
+        lines.append("build a t=%d" % t)
+        if i != held:
+            lines.append("recv b t=%d d=@a:%d" % (t, i))
+        if i == held + late:
+            lines.append("recv b t=%d d=@a:%d" % (t, held))
+            lines.append("recv b t=%d d=@a:%d" % (t, held))          # and a true duplicate of it
+        if i % 4 == 0 or i >= held + late:
+            lines.append("build b t=%d" % t)
+            lines.append("recv a t=%d d=@b:%d" % (t, kb))
+            kb += 1
+    lines += ["dump a", "dump b", "end"]
+    return lines
+
+
+def window_monitor(case, log, ctx):
+    """endpoint level statement of the receive window: a genuine datagram arriving for the first time at most 32 behind the newest
+    accepted one is accepted, further behind it is dropped; every emitted header's (ack, ack_bits) names exactly the datagrams accepted
+    among the newest 33"""
+    idx = [i for i, l in enumerate(case) if l.startswith(("recv ", "build "))]
+    n = -1
+    acc = {"a": set(), "b": set()}       # receiver -> accepted emission indices of its peer
+    seq_of = {"a": {}, "b": {}}          # sender -> emission index -> datagram seq
+    tainted = set()
+    for l in case:
+        w = l.split()
+        if w[0] == "set" and w[1] in acc and any(x.startswith("bp=") and x != "bp=0" for x in w[2:]):
+            acc[w[1]].add(-1)            # a start state that has already received the peer's latest datagram (index -1)
+    for rec in log:
+        if rec["op"] not in ("recv", "build"):
+            continue
+        n += 1
+        at = idx[n] - 1 if n < len(idx) else len(case) - 2
+        e = rec.get("e")
+        if e not in acc:
+            return
+        peer = "b" if e == "a" else "a"
+        if rec["op"] == "build":
+            p = rec.get("pkt")
+            if not p:
+                continue
+            seq_of[e][p["k"]] = p["seq"]
+            if e in tainted or not acc[e]:
+                continue
+            newest = max(acc[e])
+            exp_ack = seq_of[peer].get(newest)
+            exp_bits = 0
+            for d in range(1, 33):
+                if (newest - d) in acc[e]:
+                    exp_bits |= 1 << (32 - d)
+            if exp_ack is not None and (p["ack"] != exp_ack or p["bits"] != exp_bits):
+                ctx.failure("ack-fields-misreport-window", "%s emitted ack=%d bits=%08x; accepted among the newest 33 of its peer: ack=%d bits=%08x" %
+                            (e, p["ack"], p["bits"], exp_ack, exp_bits), {"case": case, "at": at})
+                return
+            ctx.count("window:header-checked")
+            continue
+        if "hdrerr" in rec:
+            continue
+        genuine = rec["spec"].startswith("@" + peer + ":") and not rec["muts"] and not rec.get("rekey")
+        if not genuine:
+            if rec.get("ret") != "F":
+                tainted.add(e)
+            continue
+        if e in tainted:
+            continue
+        k = int(rec["spec"].split(":")[1])
+        newest = max(acc[e]) if acc[e] else None
+        if k in acc[e]:
+            exp = "F"
+        elif newest is None or k > newest or newest - k <= 32:
+            exp = "T"
+        else:
+            exp = "F"
+        if rec["ret"] in ("T", "F") and rec["ret"] != exp:
+            ctx.failure("window-accepts-wrongly" if rec["ret"] == "T" else "fresh-datagram-inside-window-dropped",
+                        "datagram %s arriving at %s %s behind the newest accepted one (first arrival: %s) returned %s, expected %s" %
+                        (rec["spec"], e, "-" if newest is None else str(newest - k), k not in acc[e], rec["ret"], exp),
+                        {"case": case, "at": at})
+            return
+        if rec["ret"] != "F":
+            acc[e].add(k)
+            ctx.count("window:late=%s" % ("new" if newest is None or k > newest else "1-31" if newest - k < 32 else "32" if newest - k == 32 else ">32"))
+
+
 # ======================================================================= model-side helpers
 
 def model_lines(case):
@@ -734,7 +842,7 @@ def add_set_extras():
 
 # ======================================================================= projections and shared runner
 
-ANSWERING = ("send", "disc", "build", "recv", "tmo", "take", "dump", "hello", "cupd", "supd")
+ANSWERING = ("send", "disc", "build", "recv", "tmo", "take", "dump", "hello", "cupd", "supd", "sizes")
 
 
 def answering_ops_srv(case):
